@@ -113,6 +113,12 @@ def step (st : DState) (toks : List String) : DState × String :=
     match blobs.mapM parseBlob with
     | some blobs => (st, showNatList ((keepLocal blobs).map (·.uid)))
     | none => bad
+  | ["recvtok", nid] =>
+    match nid.toNat? with
+    | some nid => ({ st with node := st.node.recvToken nid }, "ok")
+    | none => bad
+  | ["ntok"] => (st, toString st.node.recv.length)
+  | ["nsecrets"] => (st, toString st.node.nextSecret)
   | ["ping", nid] =>
     match nid.toNat? with
     | some nid =>
